@@ -389,12 +389,16 @@ def one(rep, c, cfg):
                        all(x.dest.get("l") == 0 and not x.dest.get("p") for x in run_cl) and
                        not (outer.reachable(t) & {sb for sb, _, _, _ in sites}),
                        "an ordinary event can return without polling, or can reach the cancel answer", outer.loc(b))
+            tc = tg.get(EV["EVENT_CANCEL"], tg["else"])
+            rep.ob("R22.1", f"TaskState::callback: EVENT_CANCEL answers Exit without polling {tag}",
+                   outer.all_paths_pass(tc, outer.returns(), [sb for sb, _, rv, _ in sites if rv["var"] == "Exit"]) and
+                   not (outer.reachable(tc) & {x.bb for x in run_cl}) and not diverges(outer, tc),
+                   "a cancelled task keeps running instead of being released", outer.loc(b))
             unknown = [v for v in tg if v != "else" and v not in EV.values()]
             rep.ob("R22.1", f"TaskState::callback: event codes outside the table never return {tag}",
-                   not unknown and (EV.keys() <= set(EVENTS)) and
-                   (diverges(outer, tg["else"]) or {v for v in tg if v != "else"} >= set(EV.values()) and
-                    all(v in tg for v in EV.values()) and diverges(outer, tg["else"])),
-                   f"unexpected accepted values {unknown} or the default arm returns", outer.loc(b))
+                   not unknown and all(v in tg for v in EV.values()) and diverges(outer, tg["else"]),
+                   f"unexpected accepted values {unknown}, a table value handled by the default arm, or the default "
+                   "arm returns", outer.loc(b))
 
         # --- the executor closure
         polls = f.calls("Tasks::poll_next")
@@ -458,7 +462,8 @@ def one(rep, c, cfg):
         n_ready = n_pending = 0
         for b, i, rv, s in waits:
             pv = poll_variant(f, b, "Tasks::poll_next")
-            rep.ob("R22.1", f"executor: Wait names the task's own waitable set {tag}",
+            arm = "/".join(sorted(pv)) if pv else "unguarded"
+            rep.ob("R22.1", f"executor: Wait ({arm} arm) names the task's own waitable set {tag}",
                    is_call(root(f, rv["ops"][0], []), "WaitableSet::as_raw") and
                    own_set(f, root(f, rv["ops"][0], [])["call"].args[0]),
                    "the waited set is not <task>.shared.waitable_set", f.loc(b))
@@ -539,10 +544,12 @@ def one(rep, c, cfg):
         # --- who may construct a CallbackCode
         n = 0
         for g in c.fns.values():
-            for b, i, rv, s in g.aggregates("CallbackCode"):
-                n += 1
-                rep.ob("R22.1", f"CallbackCode::{rv['var']} constructed in {short(g)} {tag}",
-                       g.path in (outer.path, f.path), "a callback code is decided outside the executor", g.loc(b))
+            ag = g.aggregates("CallbackCode")
+            if ag:
+                n += len(ag)
+                rep.ob("R22.1", f"CallbackCode constructed in {short(g)} {tag}",
+                       g.path in (outer.path, f.path), "a callback code is decided outside the executor",
+                       g.loc(ag[0][0]))
         rep.floor("R22.1", f"CallbackCode construction sites in the crate {tag}", n, 5)
     rep.guard("R22.1", f"callback-codes {tag}", r1)
 
@@ -590,8 +597,7 @@ def one(rep, c, cfg):
         for b, m, o in discr_switches(f, ty_sub="CallbackCode"):
             if same_call(o.get("of", {}), inner):
                 et = variant_target(m, "Exit")
-                others = {variant_target(m, v) for v in ("Yield", "Wait")}
-                decision = (b, et, others)
+                decision = (b, et, {v: variant_target(m, v) for v in ("Yield", "Wait")})
         how = "discriminant switch"
         if decision is None:
             for pat, positive in (("PartialEq::eq", True), ("PartialEq::ne", False)):
@@ -606,36 +612,35 @@ def one(rep, c, cfg):
                     variant, is_eq = sv
                     how = f"`{'==' if is_eq else '!='} CallbackCode::{variant}` (operand read from the syntax tree)"
                     if variant == "Exit" and is_eq == positive:
-                        decision = (b, tt, {ft})
+                        decision = (b, tt, {"Yield/Wait": ft})
                     elif variant == "Exit":
-                        decision = (b, ft, {tt})
+                        decision = (b, ft, {"Yield/Wait": tt})
                     else:
-                        decision = (b, None, {ft, tt})
+                        decision = (b, None, {})
         rep.ob("R22.2", f"callback: the release decision tests the code returned by TaskState::callback against Exit {tag}",
                decision is not None and decision[1] is not None,
                f"no switch on the returned code compares with CallbackCode::Exit ({how})", f.loc())
-        if decision is None or decision[1] is None:
-            return
-        b, et, others = decision
-        fr = [x for x in f.calls("Box::from_raw")]
-        rep.floor("R22.2", f"Box::from_raw sites in callback {tag}", len(fr), 1)
-        rep.ob("R22.2", f"callback: exactly one Box::from_raw, of the state pointer, not in a loop {tag}",
-               len(fr) == 1 and is_state(fr[0].args[0]) and not f.in_cycle(fr[0].bb), f"{len(fr)} sites", f.loc())
-        drops = [x.bb for x in f.calls("mem::drop") if any(same_call(f.origin(x.args[0]), y) for y in fr)] + \
-                [db for db, t in f.drops(r"Box<.*TaskState")]
-        rep.ob("R22.2", f"callback: Exit => the box is rebuilt and dropped on every path {tag}",
-               bool(fr) and bool(drops) and f.all_paths_pass(et, f.returns(), [x.bb for x in fr]) and
-               f.all_paths_pass(et, f.returns(), drops) and all(f.set_dominates({x.bb for x in fr}, d) for d in drops),
-               "an exiting task is leaked (its destructors never run)", f.loc(b))
-        rep.ob("R22.2", f"callback: Exit => task_state::set(state) is not called {tag}",
-               not (f.reachable(et) & {s.bb for s in restores}), "a dangling pointer is left in the context slot", f.loc(b))
-        for ot in others:
-            rep.ob("R22.2", f"callback: Yield/Wait => task_state::set(state) on every path {tag}",
-                   bool(restores) and f.all_paths_pass(ot, f.returns(), [s.bb for s in restores]),
-                   "the task state is lost between callbacks", f.loc(b))
-            rep.ob("R22.2", f"callback: Yield/Wait => the task is not released {tag}",
-                   not (f.reachable(ot) & set([x.bb for x in fr] + drops)), "a task that will be called back is freed",
-                   f.loc(b))
+        if decision is not None and decision[1] is not None:
+            b, et, others = decision
+            fr = [x for x in f.calls("Box::from_raw")]
+            rep.floor("R22.2", f"Box::from_raw sites in callback {tag}", len(fr), 1)
+            rep.ob("R22.2", f"callback: exactly one Box::from_raw, of the state pointer, not in a loop {tag}",
+                   len(fr) == 1 and is_state(fr[0].args[0]) and not f.in_cycle(fr[0].bb), f"{len(fr)} sites", f.loc())
+            drops = [x.bb for x in f.calls("mem::drop") if any(same_call(f.origin(x.args[0]), y) for y in fr)] + \
+                    [db for db, t in f.drops(r"Box<.*TaskState")]
+            rep.ob("R22.2", f"callback: Exit => the box is rebuilt and dropped on every path {tag}",
+                   bool(fr) and bool(drops) and f.all_paths_pass(et, f.returns(), [x.bb for x in fr]) and
+                   f.all_paths_pass(et, f.returns(), drops) and all(f.set_dominates({x.bb for x in fr}, d) for d in drops),
+                   "an exiting task is leaked (its destructors never run)", f.loc(b))
+            rep.ob("R22.2", f"callback: Exit => task_state::set(state) is not called {tag}",
+                   not (f.reachable(et) & {s.bb for s in restores}), "a dangling pointer is left in the context slot", f.loc(b))
+            for lbl, ot in sorted(others.items()):
+                rep.ob("R22.2", f"callback: {lbl} => task_state::set(state) on every path {tag}",
+                       ot is not None and bool(restores) and f.all_paths_pass(ot, f.returns(), [s.bb for s in restores]),
+                       "the task state is lost between callbacks", f.loc(b))
+                rep.ob("R22.2", f"callback: {lbl} => the task is not released {tag}",
+                       ot is not None and not (f.reachable(ot) & set([x.bb for x in fr] + drops)),
+                       "a task that will be called back is freed", f.loc(b))
         enc = f.calls("CallbackCode::encode")
         rep.ob("R22.2", f"callback: returns encode(code of TaskState::callback) on every path {tag}",
                len(enc) == 1 and every_return_passes(f, [enc[0].bb]) and same_call(f.origin(enc[0].args[0]), inner) and
@@ -671,20 +676,23 @@ def one(rep, c, cfg):
         # who may touch the slot / release a TaskState
         n = 0
         for h in c.fns.values():
-            for call in h.calls("task_state::set"):
-                n += 1
+            ss = h.calls("task_state::set")
+            if ss:
+                n += len(ss)
                 rep.ob("R22.2", f"task_state::set called in {short(h)} {tag}", h.path in (f.path, g.path),
-                       "the context slot is written outside start_task / callback", h.loc(call.bb))
-            for call in h.calls("Box::from_raw"):
-                if "TaskState<" in call.ga or any("TaskState<" in t for t in call.arg_types):
-                    n += 1
-                    rep.ob("R22.2", f"Box::<TaskState>::from_raw called in {short(h)} {tag}", h.path == f.path,
-                           "a second owner of the boxed task can free it again", h.loc(call.bb))
-            for call in h.calls(["mem::forget", "ManuallyDrop::new"]):
-                if any("TaskState<" in t and "Shared" not in t for t in call.arg_types):
-                    n += 1
-                    rep.ob("R22.2", f"TaskState forgotten in {short(h)} {tag}", False,
-                           "destructors of the task never run", h.loc(call.bb))
+                       "the context slot is written outside start_task / callback", h.loc(ss[0].bb))
+            bs = [x for x in h.calls("Box::from_raw")
+                  if "TaskState<" in x.ga or any("TaskState<" in t for t in x.arg_types)]
+            if bs:
+                n += len(bs)
+                rep.ob("R22.2", f"Box::<TaskState>::from_raw called in {short(h)} {tag}", h.path == f.path,
+                       "a second owner of the boxed task can free it again", h.loc(bs[0].bb))
+            fs = [x for x in h.calls(["mem::forget", "ManuallyDrop::new"])
+                  if any("TaskState<" in t and "Shared" not in t for t in x.arg_types)]
+            if fs:
+                n += len(fs)
+                rep.ob("R22.2", f"TaskState forgotten in {short(h)} {tag}", False,
+                       "destructors of the task never run", h.loc(fs[0].bb))
         rep.floor("R22.2", f"slot writers / releasers found {tag}", n, 4)
     rep.guard("R22.2", f"slot-and-release {tag}", r2)
 
